@@ -31,10 +31,32 @@ def seeds_table(root):
     return "\n".join(out)
 
 
+def status_table(root):
+    from . import manifest
+    kf = json.load(open(os.path.join(root, "known_findings.json")))["findings"]
+    seeds = {}
+    for m in glob.glob(os.path.join(root, "seeded", "*", "meta.json")):
+        d = json.load(open(m))
+        seeds.setdefault(d.get("property"), []).append((os.path.basename(os.path.dirname(m)), str(d.get("caught_by", ""))))
+    props = [json.loads(l) for l in open(os.path.join(root, "properties.jsonl"))]
+    out = ["| property | claimed | open findings | fixed findings | seeded changes (caught / total) |", "|---|---|---|---|---|"]
+    for p in props:
+        pid = p["id"]
+        c = manifest.CLAIMED.get(pid)
+        opn = [f["id"] for f in kf if f["status"] == "open" and (f["property"] == pid or pid in f.get("also_explains", []))]
+        fx = [f["id"] for f in kf if f["status"] == "fixed" and f["property"] == pid]
+        sd = seeds.get(pid, [])
+        caught = sum(1 for _, cb in sd if cb.startswith("CAUGHT") or " quick" in cb and "MISSED" not in cb)
+        out.append("| %s %s | %s | %s | %d | %s |" % (pid, esc(p["title"])[:60], c.get("level", "model_checking") if c else "not claimed",
+                                               ", ".join("`%s`" % x for x in opn) or "-", len(fx),
+                                               ("%d / %d" % (caught, len(sd))) if sd else "-"))
+    return "\n".join(out)
+
+
 def update(root):
     p = os.path.join(root, "DESIGN.md")
     s = open(p).read()
-    for key, text in (("findings", findings_tables(root)), ("seeds", seeds_table(root))):
+    for key, text in (("findings", findings_tables(root)), ("seeds", seeds_table(root)), ("status", status_table(root))):
         b, e = "<!-- GEN:%s:BEGIN -->" % key, "<!-- GEN:%s:END -->" % key
         if b in s and e in s:
             s = s[:s.index(b) + len(b)] + "\n" + text + "\n" + s[s.index(e):]
